@@ -48,10 +48,15 @@ OPS = {  # name -> (function, arities, widths)
 DIVS = ('div', 'rem', 'idiv', 'irem')
 # shifts: the count is enumerated (every count below the width is one obligation set, exact encoding x * 2^k / x // 2^k), and one more
 # set for ALL counts >= width with the count symbolic.  'arities' holds the count tags here.
-SHIFTS = {'<<': 'eval_op_lshift', '>>': 'eval_op_rshift', 'a>>': 'eval_op_arshift'}
+SHIFTS = {'<<': 'eval_op_lshift', '>>': 'eval_op_rshift', 'a>>': 'eval_op_arshift', '<<<': 'eval_op_rotl', '>>>': 'eval_op_rotr'}
+ROTS = ('<<<', '>>>')
 for _op, _fn in SHIFTS.items():
     OPS[_op] = (_fn, None, (8, 16, 32, 64))
-def shift_tags(n):
+def shift_tags(n, op=None):
+    if op in ROTS:
+        # rotates: every count 0..2n-1 (both sides of the reduction r %= op_size) and the largest count; for the other counts >= 2n the
+        # argument is the C14 contract of `%` in the first statement of the body (not discharged per count: stated in DESIGN 12.2)
+        return list(range(2 * n)) + [(1 << n) - 1]
     return list(range(n)) + ['big']
 
 def is_big(k, n):
@@ -128,9 +133,15 @@ def spec(op, vals, n, bitop=None, ite=None):
     if op == '*lo': return (vals[0] * vals[1]) % M
     if op in SHIFTS:
         x, k = vals
-        big = is_big(k, n)
+        big = is_big(k, n) and op not in ROTS
         if op == '<<': return 0 if big else (x * (1 << k)) % M
         if op == '>>': return 0 if big else (x // (1 << k) if not hasattr(x, 'sexpr') else x / (1 << k))
+        if op in ROTS:
+            r = k % n
+            if op == '>>>': r = (n - r) % n          # rotating right by r is rotating left by n - r
+            if hasattr(x, 'sexpr'):
+                return (x * (1 << r)) % M + x / (1 << (n - r))
+            return ((x << r) % M) + (x >> (n - r))
         sx = _sg(x, n, ite)
         if big: return ite(x >= M // 2, M - 1, 0)
         return ((sx // (1 << k)) if not hasattr(x, 'sexpr') else (sx / (1 << k))) % M
@@ -171,6 +182,19 @@ def contracts(op, n):
         want = spec(op, vals, n, bitop=bitop, ite=lambda c, a, b: If(c, a, b))
         got = cm.val(res)
         if got is None: return False
+        if op in ROTS:
+            # ASSUMED fact of Python's int | (listed in the evidence): the two halves of a rotate occupy disjoint bit ranges, and
+            # a | b == a + b when a is a non-negative multiple of 2^k and 0 <= b < 2^k.  k is the concrete split point of this count.
+            # It is a hypothesis of the postcondition (not of the path), so that path feasibility stays quantifier-free.
+            import z3
+            from specs.duck import _uf
+            r = args[1].arg % n
+            k = r if op == '<<<' else n - r
+            a, b = z3.Ints('lem_a lem_b')
+            por = _uf('py_or')
+            ok = z3.And(a >= 0, b >= 0, b < (1 << k), a % (1 << k) == 0)
+            lemma = z3.ForAll([a, b], z3.Implies(ok, z3.And(por(a, b) == a + b, por(b, a) == a + b)))
+            return z3.Implies(lemma, cm.norm(cast_int, got) == want)
         return cm.norm(cast_int, got) == want
     if op in DIVS:
         C['%s:eval_abs._div_operands' % EA] = Contract('%s:eval_abs._div_operands' % EA, inline=True)     # verified inline, as part of each caller
@@ -243,10 +267,10 @@ def _job(job):
             args.append(SObj(cls, {'arg': v}, fresh=False))
         me = SObj(E.eval_abs, {}, fresh=False)
         return [me, args, n, cls], ins
-    base = 'C06:%s[%s,uint%d,arity%d]' % (OPS[op][0], op, n, ar) if op not in SHIFTS else 'C06:%s[%s,uint%d,count%s]' % (OPS[op][0], op, n, ar if ar == 'big' else '%02d' % ar)
+    base = 'C06:%s[%s,uint%d,arity%d]' % (OPS[op][0], op, n, ar) if op not in SHIFTS else 'C06:%s[%s,uint%d,count%s]' % (OPS[op][0], op, n, ar if ar == 'big' else '%02d' % ar if ar < 1000 else 'max')
     out = []
     try:
-        V = engine.verify_function(qn, node, vars(mod), top, C, make_args, timeout_ms=20000)
+        V = engine.verify_function(qn, node, vars(mod), top, C, make_args, timeout_ms=3000 if op in ROTS else 20000)   # rotates: ms when they hold; a failing one is 'unknown' (quantified hypothesis) and goes to the twin
     except Exception as ex:
         import traceback
         return [(base + ':generate', DOWNGRADED, 0.0, 'generator error: %s' % traceback.format_exc()[-300:], None)]
@@ -283,7 +307,7 @@ def ob_smt(run):
         mod, node, seg, path = resolve(qn)
         run.function(qn, seg, path, node.lineno)
         for n in ws:
-            for ar in (ars if op not in SHIFTS else shift_tags(n)):
+            for ar in (ars if op not in SHIFTS else shift_tags(n, op)):
                 jobs.append((op, n, ar))
     with multiprocessing.get_context('fork').Pool(min(16, os.cpu_count() or 4)) as pool:
         results = pool.map(_job, jobs, chunksize=1)
